@@ -141,16 +141,22 @@ def unit_discipline(R, rep):
         okc = ratio is not None and isinstance(c, tuple) and c[0] == "*" and _contains_product(c, [q, ratio])
         rep.ob("R3", "30-day:cost-uses-buy-time-qty", okc, "the cost is taken for quantity × ratio shares of the acquisition" if okc else
                f"30-day cost {show(c)[:80]} does not use Match.quantity × ratio", site, key="R3:bnb:cost-units")
-    tb = R.terms(b, 2)
     q = agg_fields(sites[0][1])["quantity"] if sites else None
+    # the function that assembles the leg (builds the MatchResult) is handed Match.quantity — wherever in the producer's
+    # region (the producer itself or a helper of it) that call sits
+    rg = R.region(b, arg_depth=2)
     found = False
-    for i, t in b.calls():
-        cb = R.F.bodies.get(t["callee"])
-        if cb is not None and cb.id in R.helpers:
-            args = [tb.operand(a) for a in t["args"]]
-            found = True
-            rep.ob("R3", "30-day:proceeds-use-sell-time-qty", q in args, "proceeds are apportioned on the sell-time quantity" if q in args else
-                   "the leg builder does not receive Match.quantity", b.loc(t["sp"]), key="R3:bnb:proceeds-units")
+    for it in rg.items:
+        cb = R.F.bodies.get(it["term"]["callee"])
+        if cb is None or cb.id not in rg.bodies and cb.id not in R.helpers:
+            continue
+        builds = any(s["rv"]["k"] == "agg" and s["rv"]["adt"].endswith("matcher::MatchResult") for _, _, s in cb.assigns())
+        if not builds:
+            continue
+        args = [rg.arg(it, k) for k in range(len(it["term"]["args"]))]
+        found = True
+        rep.ob("R3", "30-day:proceeds-use-sell-time-qty", q in args, "proceeds are apportioned on the sell-time quantity" if q in args else
+               "the leg builder does not receive Match.quantity", it["body"].loc(it["term"]["sp"]), key="R3:bnb:proceeds-units")
     if not found and sites:
         # leg built inline: gross proceeds = q × price is checked by C04-R2
         pass
@@ -176,7 +182,13 @@ def variant_coverage(R, rep):
     for b in R.bodies:
         if b.kind not in ("fn", "method"):
             continue
-        fam = [b] + [F.bodies[c] for c in F.children(b.id)]
+        walks = any("[cgt_core::models::GbpTransaction]" in x.local_ty(k + 1) for x in [b] for k in range(x.argc))
+        if not walks:
+            continue
+        # the pass = the function with the helpers it delegates to (per-day steps are often split out) and their closures
+        rg = R.region(b)
+        fam = [F.bodies[bid] for bid in rg.bodies]
+        fam += [F.bodies[c_] for x in list(fam) for c_ in F.children(x.id) if c_ not in rg.bodies]
         reads = set()
         for x in fam:
             for i, si, s in x.assigns():
@@ -185,11 +197,9 @@ def variant_coverage(R, rep):
                     for k, e in enumerate(pr):
                         if isinstance(e, dict) and e.get("adt") == "cgt_core::models::Operation" and "n" in e:
                             reads.add((e.get("v"), e["n"]))
-        walks = any("[cgt_core::models::GbpTransaction]" in x.local_ty(k + 1) for x in [b] for k in range(x.argc))
-        keeps = any(t["callee"].endswith(("AcquisitionLedger::consume_shares_before_date", "AcquisitionLedger::consume_shares_on_date",
-                                          "AcquisitionLedger::add_acquisition")) and b.in_loop(i) for i, t in b.calls())
-        adds = any(t["callee"].endswith("AcquisitionLedger::add_acquisition") and b.in_loop(i) for i, t in b.calls())
-        if not (walks and adds and ("Buy", "amount") in reads and ("Sell", "amount") in reads):
+        adds = any(it["term"]["callee"].endswith("AcquisitionLedger::add_acquisition") and (b.in_loop(it["root_bb"]) or it["body"].in_loop(it["bb"]))
+                   for it in rg.items)
+        if not (adds and ("Buy", "amount") in reads and ("Sell", "amount") in reads):
             continue
         n += 1
         has_split = ("Split", "ratio") in reads and ("Unsplit", "ratio") in reads
